@@ -103,3 +103,15 @@ Definition defect_non_ascii (t : text) : bool := negb (is_ascii_text t).
 (* C11/final-lone-cr-ambiguous: the last character of the text is a CR (the reader takes it for the
    CR of the CR LF in front of the signature block) *)
 Definition defect_final_cr (t : text) : bool := negb (eqb_bytes (strip_cr t) t).
+
+(* ---------- vocabulary of the statements in Props/C11.v ---------- *)
+(* a line that starts with "-" starts with "- " *)
+Definition safe_line (l : text) : bool :=
+  match l with
+  | c :: r => if c =? 45 then match r with d :: _ => d =? 32 | [] => false end else true
+  | [] => true
+  end.
+
+(* a hash algorithm name as it appears in the Hash: header: non-empty, [A-Za-z0-9-] *)
+Definition wf_hash_name (n : text) : bool := negb (is_nil n) && forallb (fun c => hash_char c && negb (c =? 44)) n.
+
